@@ -42,6 +42,10 @@ func runC02(r *Run) {
 	c02CutMidStream(r)
 	// a long backlog at a caller that is not reading: order and completeness when it finally reads (c05b.go)
 	c05LongBacklog(r)
+	// a stream abandoned with unread envelopes, then the next stream: it receives exactly what ITS handler sent
+	if r.Want("backlog") {
+		c05Backlog(r)
+	}
 	if r.Want("yields") && !(hung && r.Only == "") {
 		// a tree on which the plain product hangs would hang here too, at 2*hangTimeout a time
 		c02Yields(r)
